@@ -184,6 +184,12 @@ class DbSuite:
                         elif o[0] == "O" and a != "ok":
                             bad = (i, "reopen failed: %s" % a)
                             break
+                        elif o == "N" and a != "ok":
+                            bad = (i, "closing the database failed: %s" % a)
+                            break
+                        elif o == "E" and not a.startswith("stats:"):
+                            bad = (i, "get_descriptor(Stats) failed: %s" % a)
+                            break
                         elif o == "Y" and a != "exact":
                             bad = (i, "directory contents are not exactly the needed files: %s" % a)
                             break
